@@ -262,7 +262,7 @@ class HitResult:
             """
             center_row = self.trajectory[row_num]
             for prime_row in reversed(self.trajectory[:row_num]):
-                if (prime_row.target_drop.raw_value - center_row.target_drop.raw_value) >= target_height_half:
+                if abs(prime_row.target_drop.raw_value - center_row.target_drop.raw_value) >= target_height_half:
                     return prime_row
             return self.trajectory[0]
 
@@ -275,7 +275,7 @@ class HitResult:
             """
             center_row = self.trajectory[row_num]
             for prime_row in self.trajectory[row_num + 1:]:
-                if (center_row.target_drop.raw_value - prime_row.target_drop.raw_value) >= target_height_half:
+                if abs(center_row.target_drop.raw_value - prime_row.target_drop.raw_value) >= target_height_half:
                     return prime_row
             return self.trajectory[-1]
 
